@@ -19,6 +19,7 @@ import (
 	rbPool "github.com/panjf2000/gnet/v2/pkg/pool/ringbuffer"
 
 	"verif/sim/runner"
+	simpool "verif/sim/vpool"
 	"verif/sim/vsched"
 )
 
@@ -65,7 +66,7 @@ func Generate(seed uint64, prop, tier string) *Plan {
 		var ops []Op
 		n := r.Range(2, 14)
 		for i := 0; i < n; i++ {
-			switch x := r.Intn(12); {
+			switch x := r.Intn(13); {
 			case x < 4:
 				ops = append(ops, Op{K: "get", N: genSize(r)})
 			case x < 8:
@@ -76,8 +77,14 @@ func Generate(seed uint64, prop, tier string) *Plan {
 				ops = append(ops, Op{K: "rget"})
 			case x == 10:
 				ops = append(ops, Op{K: "rput", Slot: r.Intn(4)})
+			case x == 11:
+				ops = append(ops, Op{K: "rreset", Slot: r.Intn(4)})
 			default:
-				ops = append(ops, Op{K: "rwrite", Slot: r.Intn(4), N: r.Pick(1, 100, 2000, 70000)})
+				op := Op{K: "rwrite", Slot: r.Intn(4), N: r.Pick(1, 100, 2000, 70000)}
+				if r.Chance(1, 50) {
+					op.N = 9 << 20 // a ring that grew for a burst (beyond any "idle" threshold of a few MiB)
+				}
+				ops = append(ops, op)
 			}
 		}
 		p.Tasks = append(p.Tasks, ops)
@@ -148,6 +155,7 @@ func Execute(t *testing.T, p *Plan, prop string) (out runner.Outcome) {
 		}()
 		synctest.Test(t, func(t *testing.T) {
 			vsched.ResetGlobals()
+			simpool.ResetDoublePuts()
 			s := vsched.New(vsched.Config{Seed: p.Seed, Strategy: p.Strategy, Quantum: p.Quantum, MaxSteps: 50000})
 			defer s.Close()
 			s.OnQuiescent = func(int) int { return vsched.QStop }
@@ -287,6 +295,12 @@ func Execute(t *testing.T, p *Plan, prop string) (out runner.Outcome) {
 							}
 							rb := rings[op.Slot%len(rings)]
 							_, _ = rb.Write(make([]byte, op.N))
+						case "rreset":
+							if len(rings) == 0 {
+								continue
+							}
+							rings[op.Slot%len(rings)].Reset()
+							probes["ring-resets"]++
 						case "rput":
 							if len(rings) == 0 {
 								continue
@@ -307,6 +321,10 @@ func Execute(t *testing.T, p *Plan, prop string) (out runner.Outcome) {
 			s.Loop()
 			for _, hd := range outstanding {
 				verify(hd, "by the end of the run")
+			}
+			if simpool.DoublePuts > 0 {
+				// a block that sits in its pool twice will be handed to two holders
+				fail("pool-double-put", "%s (%d time(s))", simpool.DoublePutMsg, simpool.DoublePuts)
 			}
 			out.Steps, out.Signature = s.Step(), s.Signature()
 			out.NonTrivial = probes["gets"] > 1 && probes["puts"] > 0
